@@ -184,6 +184,14 @@ func (n *Node) attesterDuties(ctx context.Context, opts *api.AttesterDutiesOpts,
 	if n.M.P.AnswerAtRequest {
 		early = n.M.AttesterTable(uint64(opts.Epoch))
 	}
+	if kind == "attester-sub" && n.M.P.SubDutiesLatency > 0 {
+		// the beacon committee subscriber's own duties request is answered late
+		simrt.Probe("fault:subscriber-duties-late")
+		if err := simrt.Sleep(ctx, n.M.P.SubDutiesLatency, n.NodeName+"/AttesterDuties/sub-late"); err != nil {
+			f.EndStep, f.EndT, f.Err = simrt.Step(), simrt.Now(), true
+			return nil, err
+		}
+	}
 	_, err := n.S.Do(ctx, n.NodeName, "AttesterDuties", nil)
 	f.EndStep, f.EndT = simrt.Step(), simrt.Now()
 	f.CurSlotAtEnd, f.PreGenesis = n.curSlot()
